@@ -15,6 +15,8 @@ VERIF = os.path.dirname(os.path.dirname(os.path.abspath(__file__)))
 sys.path.insert(0, VERIF)
 # the tree under verification: /repo/src unless a scratch copy is named (mutant self-test)
 SRC_ROOT = os.environ.get("BUMPVER_SRC", "/repo/src")
+while SRC_ROOT in sys.path:
+    sys.path.remove(SRC_ROOT)
 sys.path.insert(0, SRC_ROOT)
 
 
@@ -90,12 +92,23 @@ def _worker(task):
             if exp["obligations"] > 0 and len(obs) == 0:
                 info["vacuous"] = "no obligations generated"
         results = []
+        status = {}  # obligation name -> [n_sat, n_unknown]
         for i, ob in enumerate(obs):
             if i % nshards != shard:
                 continue
             if prop not in ob.props:
                 continue
+            stt = status.setdefault(ob.name, [0, 0])
+            if stt[0] >= 1 or stt[1] >= 3:
+                # already refuted (or repeatedly undecided) on another path: further paths of the same
+                # clause cannot change the verdict of this obligation; skip them to bound the run time
+                results.append(dict(verdict="sat" if stt[0] else "unknown", backend="skipped", time=0.0, model=None, name=ob.name, function=contract.key, props=list(ob.props), kind=ob.kind, detail="skipped: clause already " + ("refuted" if stt[0] else "undecided") + " on another path", replay=dict(reproduced=False, note="skipped")))
+                continue
             r = C.discharge(ob, timeout_ms)
+            if r["verdict"] == "sat":
+                stt[0] += 1
+            elif r["verdict"] == "unknown":
+                stt[1] += 1
             r.update(name=ob.name, function=contract.key, props=list(ob.props), kind=ob.kind, detail=ob.detail)
             if r["verdict"] == "sat":
                 # known finding? re-prove with the witness class excluded
